@@ -2,7 +2,7 @@
 
 LALRPOP turns every alternative's action into a function `__actionN` of the generated parser and documents, next to each
 reduction, which production runs which action (`// Lhs = Sym, Sym => ActionFn(N);`).  The fact dumper exports those
-functions (HIR + types, `generated_actions`), so an action is analysed like any other function of the crate: callees are
+functions (HIR + types, `generated_actions`) and those comment lines (`generated_productions`, from the text rustc compiled), so an action is analysed like any other function of the crate: callees are
 resolved by rustc, constructor helpers are followed into src/parser/mod.rs, and the *value an alternative builds* is a
 term over the alternative's captured symbols — independent of how the action happens to be spelled in the grammar file.
 
@@ -42,17 +42,12 @@ def productions(fx):
     if cached is not None:
         return cached
     out = []
-    files = sorted({b["span"]["f"] for b in fx.gen_actions})
-    for f in files:
-        if not os.path.exists(f):
-            continue
-        with open(f, encoding="utf-8", errors="replace") as fh:
-            for line in fh:
-                if "ActionFn(" not in line:
-                    continue
-                m = _PROD.match(line)
-                if m:
-                    out.append((m.group(1).strip(), _split_syms(m.group(2)), int(m.group(3))))
+    # the lines come with the facts (the dumper copies them from the source text rustc compiled), never from a file on
+    # disk that a later build of another tree may have overwritten
+    for line in getattr(fx, "gen_productions", []):
+        m = _PROD.match(line)
+        if m:
+            out.append((m.group(1).strip(), _split_syms(m.group(2)), int(m.group(3))))
     out = sorted(set(out))
     fx._productions = out
     return out
@@ -129,8 +124,17 @@ def for_alt(fx, g, rule_name, alt):
 
 
 class ActionClient(Client):
+    """Operator::as_str / Display for Operator are *the spelling* of an operator: kept as the operator itself here (one
+    value instead of 13 case splits); that the spelling table is S6's is R7.spelling's obligation."""
     name = "grammar-actions"
     inline_depth = 10
+
+    def pure(self, ex, path, node, recv, args):
+        if path in ("parser::Operator::as_str", "<parser::Operator as std::fmt::Display>::fmt") and recv is not None and not args:
+            return recv
+        if path.endswith("ToString::to_string") and recv is not None and (ex.fx.ty(node.get("recv") or {}) or "").lstrip("&").endswith("parser::Operator"):
+            return recv
+        return None
 
 
 def var_of(alt, i, positional=False):
